@@ -70,3 +70,261 @@ Qed.
 
 Lemma c15_oracle_code c k : c15_oracle c = Some k -> k = 0 \/ (k = 1 /\ c_engine c = EBadger).
 Proof. apply o15_run_code. Qed.
+
+(* ---------- the oracle accepts every model trace, except on the finding's signature ---------- *)
+
+Lemma list_eqb_eq {A} (eqb : A -> A -> bool) :
+  (forall a b, eqb a b = true -> a = b) -> forall x y, list_eqb eqb x y = true -> x = y.
+Proof.
+  intros H. induction x as [|a x IH]; intros [|b y]; simpl; try discriminate; [reflexivity|].
+  intros E. apply andb_true_iff in E as [E1 E2]. f_equal; [apply H, E1|apply IH, E2].
+Qed.
+Lemma list_eqb_refl {A} (eqb : A -> A -> bool) : (forall a, eqb a a = true) -> forall x, list_eqb eqb x x = true.
+Proof. intros H. induction x as [|a x IH]; simpl; [reflexivity|]. rewrite H, IH. reflexivity. Qed.
+Lemma opt_eqb_eq {A} (eqb : A -> A -> bool) :
+  (forall a b, eqb a b = true -> a = b) -> forall x y, opt_eqb eqb x y = true -> x = y.
+Proof. intros H [a|] [b|]; simpl; try discriminate; [intros E; f_equal; apply H, E|reflexivity]. Qed.
+Lemma beqb_true a b : beqb a b = true -> a = b.
+Proof. apply beqb_eq. Qed.
+Lemma kv_eqb_eq a b : kv_eqb a b = true -> a = b.
+Proof.
+  destruct a as [[k v] r], b as [[k' v'] r']. unfold kv_eqb; simpl. intros E.
+  apply andb_true_iff in E as [E E3]. apply andb_true_iff in E as [E1 E2].
+  apply beqb_eq in E1, E2. apply N.eqb_eq in E3. congruence.
+Qed.
+Lemma kv_eqb_refl a : kv_eqb a a = true.
+Proof. destruct a as [[k v] r]. unfold kv_eqb; simpl. rewrite !beqb_refl, N.eqb_refl. reflexivity. Qed.
+Lemma obj_eqb_eq a b : obj_eqb a b = true -> a = b.
+Proof.
+  destruct a as [r v], b as [r' v']. unfold obj_eqb; simpl. intros E. apply andb_true_iff in E as [E1 E2].
+  apply N.eqb_eq in E1. apply (opt_eqb_eq beqb beqb_true) in E2. congruence.
+Qed.
+Lemma idx_eqb_eq a b : idx_eqb a b = true -> a = b.
+Proof.
+  destruct a as [r d], b as [r' d']. unfold idx_eqb; simpl. intros E. apply andb_true_iff in E as [E1 E2].
+  apply N.eqb_eq in E1. apply Bool.eqb_prop in E2. congruence.
+Qed.
+Lemma krec_eqb_eq a b : krec_eqb a b = true -> a = b.
+Proof.
+  destruct a as [i o], b as [i' o']. unfold krec_eqb; simpl. intros E. apply andb_true_iff in E as [E1 E2].
+  apply (opt_eqb_eq idx_eqb idx_eqb_eq) in E1. apply (list_eqb_eq obj_eqb obj_eqb_eq) in E2. congruence.
+Qed.
+Lemma dstore_eqb_eq a b : dstore_eqb a b = true -> a = b.
+Proof.
+  apply list_eqb_eq. intros [k r] [k' r']; simpl. intros E. apply andb_true_iff in E as [E1 E2].
+  apply beqb_eq in E1. apply krec_eqb_eq in E2. congruence.
+Qed.
+Lemma hclass_eqb_eq a b : hclass_eqb a b = true -> a = b.
+Proof. destruct a, b; simpl; congruence. Qed.
+Lemma hres_eqb_eq a b : hres_eqb a b = true -> a = b.
+Proof.
+  destruct a as [c r], b as [c' r']. unfold hres_eqb; simpl. intros E. apply andb_true_iff in E as [E1 E2].
+  apply hclass_eqb_eq in E1. apply N.eqb_eq in E2. congruence.
+Qed.
+Lemma eres_eqb_eq a b : eres_eqb a b = true -> a = b.
+Proof. destruct a, b; simpl; try congruence. intros E. apply N.eqb_eq in E. congruence. Qed.
+Lemma res_eqb_true a b : res_eqb a b = true -> a = b.
+Proof. destruct a, b; simpl; congruence. Qed.
+
+Lemma aobs_eqb_eq a b : aobs_eqb a b = true -> a = b.
+Proof.
+  destruct a, b; simpl; try discriminate; intros E.
+  - repeat (apply andb_true_iff in E as [E ?]).
+    apply eres_eqb_eq in E. repeat match goal with H : res_eqb _ _ = true |- _ => apply res_eqb_true in H end.
+    match goal with H : dstore_eqb _ _ = true |- _ => apply dstore_eqb_eq in H end.
+    match goal with H : opt_eqb beqb _ _ = true |- _ => apply (opt_eqb_eq beqb beqb_true) in H end.
+    congruence.
+  - apply hres_eqb_eq in E. congruence.
+  - apply andb_true_iff in E as [E1 E2]. apply N.eqb_eq in E1. apply (list_eqb_eq kv_eqb kv_eqb_eq) in E2. congruence.
+  - reflexivity.
+Qed.
+
+(* a request touches only its own key *)
+Lemma create_at_other d k v rev k2 : k2 <> k -> dget (fst (create_at d k v rev)) k2 = dget d k2.
+Proof.
+  intros H. unfold create_at. destruct (k_idx (dget d k)) as [[r0 del]|].
+  - destruct (del && (r0 <? rev)); [simpl; apply dget_dset_other; exact H|reflexivity].
+  - simpl. apply dget_dset_other. exact H.
+Qed.
+
+Lemma do_op_other d n o k2 : k2 <> hop_key o -> dget (d_store (do_op d n o)) k2 = dget d k2.
+Proof.
+  intros H. destruct o as [k v|k v prev|k prev]; cbn [do_op hop_key] in *.
+  - pose proof (create_at_other d k v (n + 1) k2 H). destruct (create_at d k v (n + 1)). exact H0.
+  - destruct prev as [|pp].
+    + pose proof (create_at_other d k v (n + 1) k2 H). destruct (create_at d k v (n + 1)) as [d' ok]. destruct ok; exact H0.
+    + destruct (n + 1 <? N.pos pp); [reflexivity|].
+      destruct (k_idx (dget d k)) as [[r0 [|]]|]; try reflexivity.
+      destruct (r0 =? N.pos pp); [simpl; apply dget_dset_other; exact H|reflexivity].
+  - destruct (get_latest (dget d k)) as [[val modr]|]; [|reflexivity].
+    destruct ((0 <? prev) && (n + 1 <? prev)); [reflexivity|].
+    destruct ((0 <? prev) && negb (prev =? modr)); [reflexivity|].
+    destruct (n + 1 <=? modr); [reflexivity|].
+    destruct (k_idx (dget d k)) as [[r0 [|]]|]; try reflexivity.
+    destruct (r0 =? modr); [simpl; apply dget_dset_other; exact H|reflexivity].
+Qed.
+
+Lemma elect_data e w p h bc bu t1 t2 w' p' r g wr :
+  elect e w p h bc bu t1 t2 = (w', p', r, g, wr) -> w_data w' = w_data w.
+Proof.
+  unfold elect.
+  set (g0 := do_get (w_lock w) (p_lock p) GOk (TOk (clock e w t1))).
+  destruct (o_res g0).
+  - destruct (o_res (do_update _ _ h bu COk _)); try destruct (leader_version _);
+      intros H; injection H as <- _ _ _ _; cbn [w_data]; apply bump_data.
+  - destruct (o_res (do_create _ _ h bc COk _)); try destruct (leader_version _);
+      intros H; injection H as <- _ _ _ _; cbn [w_data]; apply bump_data.
+  - intros H; injection H as <- _ _ _ _; reflexivity.
+  - intros H; injection H as <- _ _ _ _; reflexivity.
+  - intros H; injection H as <- _ _ _ _; reflexivity.
+  - intros H; injection H as <- _ _ _ _; reflexivity.
+Qed.
+
+(* validity of a script: every elected process is fresh (a process is elected at most once), only
+   the current leader serves requests (the old leader has stopped), and for the environment clocks
+   the rate hypothesis holds at every hand-over *)
+Fixpoint v15 (e : engine) (s : mstate) (ldr : option cid) (xs : list (act * aobs)) : Prop :=
+  match xs with
+  | [] => True
+  | (a, _) :: tl =>
+      let s' := fst (m_step e s a) in
+      match a with
+      | AElect c _ _ _ _ _ =>
+          m_p s c = proc0 /\
+          match snd (m_step e s a) with
+          | OElect (EAcquired v) _ _ d _ => (e <> EBadger -> dmax d <= v) /\ v15 e s' (Some c) tl
+          | _ => False                     (* the scripts the driver writes only contain winning elections *)
+          end
+      | AOp c _ | AList c => ldr = Some c /\ v15 e s' ldr tl
+      | ARestart => v15 e s' ldr tl
+      end
+  end.
+Definition c15_valid (c : c15_case) : Prop := v15 (c_engine c) mstate0 None (c_script c).
+
+Definition J (e : engine) (s : mstate) (os : ost15) : Prop :=
+  WF (w_data (m_w s)) /\
+  match os_leader os with
+  | None => True
+  | Some l => exists n, p_lead (m_p s l) = mkL n n /\
+      ((e = EBadger /\ os_base os < dmax (os_dump os)) \/
+       (dmax (os_dump os) <= os_base os /\ Good (w_data (m_w s)) n /\ os_base os <= n /\
+        (forall k, existsb (beqb k) (os_touched os) = false -> dget (w_data (m_w s)) k = dget (os_dump os) k) /\
+        (os_fresh os = true -> w_data (m_w s) = os_dump os /\ n = os_base os)))
+  end.
+
+Lemma code_of_bad e os : e = EBadger -> os_base os < dmax (os_dump os) ->
+  (if engine_eqb e EBadger && (os_base os <? dmax (os_dump os)) then 1 else 0) = 1.
+Proof. intros -> H. apply N.ltb_lt in H. rewrite H. reflexivity. Qed.
+
+(* a non-election step keeps the oracle's hand-over facts *)
+Lemma step_keeps os a o os' :
+  (forall c h bc bu t1 t2, a <> AElect c h bc bu t1 t2) ->
+  o15_step os (a, o) = Some os' ->
+  os_leader os' = os_leader os /\ os_base os' = os_base os /\ os_dump os' = os_dump os.
+Proof.
+  intros Ne. destruct a as [c h bc bu t1 t2|c op|c|]; [exfalso; eapply Ne; reflexivity| | |]; cbn [o15_step].
+  - destruct o as [| r | |]; try discriminate. destruct (os_leader os) as [l|] eqn:L; [|intros H; injection H as <-; auto].
+    destruct (c =? l); [|intros H; injection H as <-; auto].
+    match goal with |- (if ?b then _ else _) = _ -> _ => destruct b end; [|discriminate].
+    intros H; injection H as <-. cbn. auto.
+  - destruct o as [| |hdr kvs|]; try discriminate. destruct (os_leader os) as [l|] eqn:L; [|intros H; injection H as <-; auto].
+    destruct ((c =? l) && os_fresh os); [|intros H; injection H as <-; auto].
+    destruct (list_eqb kv_eqb kvs (list_latest (os_dump os))); [|discriminate]. intros H; injection H as <-; auto.
+  - destruct o; try discriminate. intros H; injection H as <-; auto.
+Qed.
+
+Lemma o15_sound e xs : forall s os,
+  J e s os -> v15 e s (os_leader os) xs -> c15_run e s xs = true ->
+  o15_run e os xs = None \/ o15_run e os xs = Some 1.
+Proof.
+  induction xs as [|[a o] tl IH]; intros s os Jn V C; [left; reflexivity|].
+  cbn [c15_run] in C. cbn [v15] in V. destruct (m_step e s a) as [s' o'] eqn:M. cbn [fst snd] in V.
+  apply andb_true_iff in C as [Eo C]. apply aobs_eqb_eq in Eo. subst o.
+  destruct Jn as [W Jl].
+  destruct a as [c h bc bu t1 t2|c op|c|].
+  - (* election: always a winning one in a valid script *)
+    cbn [m_step] in M. destruct (elect e (m_w s) (m_p s c) h bc bu t1 t2) as [[[[w' p'] r] g] wr] eqn:El.
+    injection M as <- <-. destruct V as [Fresh V].
+    pose proof (elect_data _ _ _ _ _ _ _ _ _ _ _ _ _ El) as Ed.
+    destruct r as [v| |]; try contradiction.
+    destruct V as [Rate V]. cbn [o15_run o15_step]. apply (IH (mkM w' (upd (m_p s) c p'))); [|exact V|exact C].
+    split; [cbn [m_w]; rewrite Ed; exact W|]. cbn [os_leader os_base os_dump os_touched os_fresh m_p m_w].
+    destruct (elect_version _ _ _ _ _ _ _ _ _ _ _ _ _ El) as [_ [_ Pl]].
+    exists v. split.
+    { unfold upd. rewrite N.eqb_refl. rewrite Pl, Fresh. unfold set_current; simpl. destruct v; reflexivity. }
+    destruct (N.le_gt_cases (dmax (w_data w')) v) as [Hle|Hgt].
+    + right. split; [exact Hle|]. split; [apply good_split; split; [rewrite Ed; exact W|exact Hle]|].
+      split; [lia|]. split; [reflexivity|]. intros _. auto.
+    + left. split; [|exact Hgt].
+      destruct e; try reflexivity; exfalso; assert (dmax (w_data w') <= v) by (apply Rate; discriminate); lia.
+  - (* a request served by the leader *)
+    destruct V as [Ld V]. rewrite Ld in Jl. destruct Jl as [n [Pn Jd]].
+    cbn [m_step] in M. unfold serve in M. rewrite Pn in M. cbn [deal] in M.
+    set (out := do_op (w_data (m_w s)) n op) in *. injection M as <- <-.
+    assert (W' : WF (w_data (bump (mkW (w_lock (m_w s)) (d_store out) (w_commits (m_w s))) (d_commit out)))).
+    { rewrite bump_data. cbn [w_data]. apply do_op_wf. exact W. }
+    assert (P' : p_lead (upd (m_p s) c (mkP (p_lock (m_p s c)) (mkL (n + 1) (n + 1))) c) = mkL (n + 1) (n + 1)).
+    { unfold upd. rewrite N.eqb_refl. reflexivity. }
+    destruct Jd as [[Eb Hb]|[Hle [G [Hbn [Hun Hfr]]]]].
+    + (* hand-over went wrong: whatever the oracle says is classified as the finding *)
+      cbn [o15_run]. destruct (o15_step os (AOp c op, OOp (d_res out))) as [os'|] eqn:St.
+      * destruct (step_keeps _ _ _ _ ltac:(discriminate) St) as [K1 [K2 K3]].
+        apply (IH _ os'); [|rewrite K1, Ld; exact V|exact C].
+        split; [exact W'|]. rewrite K1, Ld. exists (n + 1). split; [exact P'|]. left. rewrite K2, K3. auto.
+      * right. f_equal. apply code_of_bad; assumption.
+    + (* hand-over was ahead: the oracle accepts the response *)
+      cbn [o15_run o15_step]. rewrite Ld, N.eqb_refl.
+      assert (Ha : (match h_class (d_res out) with HOk | HNotFound => dmax (os_dump os) <? h_rev (d_res out) | _ => true end) = true).
+      { destruct (h_class (d_res out)) eqn:Hc; try reflexivity.
+        - destruct (handed_out_above _ _ op G (or_introl Hc)) as [E _]. fold out in E. rewrite E. apply N.ltb_lt. lia.
+        - destruct (handed_out_above _ _ op G (or_intror Hc)) as [E _]. fold out in E. rewrite E. apply N.ltb_lt. lia. }
+      assert (Hb : (if negb (existsb (beqb (hop_key op)) (os_touched os)) && guarded_true (os_dump os) op
+                    then hclass_eqb (h_class (d_res out)) HOk else true) = true).
+      { destruct (existsb (beqb (hop_key op)) (os_touched os)) eqn:Tc; [reflexivity|]. cbn [negb andb].
+        destruct (guarded_true (os_dump os) op) eqn:Gt; [|reflexivity].
+        specialize (Hun _ Tc). unfold guarded_true in Gt.
+        destruct op as [k v|k v prev|k prev]; [discriminate| |]; cbn [hop_key] in Hun;
+          apply andb_true_iff in Gt as [Gp Gi]; apply N.ltb_lt in Gp; rewrite <- Hun in Gi;
+          destruct (k_idx (dget (w_data (m_w s)) k)) as [[r0 [|]]|] eqn:Ki; try discriminate;
+          apply N.eqb_eq in Gi; subst r0; subst out.
+        - rewrite (guarded_update_ok _ _ _ _ _ G Gp Ki). reflexivity.
+        - rewrite (guarded_delete_ok _ _ _ _ G Gp Ki). reflexivity. }
+      rewrite Ha, Hb. cbn [andb].
+      apply (IH _ _); [|cbn [os_leader]; rewrite Ld; exact V|exact C].
+      split; [exact W'|]. cbn [os_leader os_base os_dump os_touched os_fresh]. rewrite Ld.
+      exists (n + 1). split; [exact P'|]. right. split; [exact Hle|].
+      cbn [m_w]. rewrite bump_data. cbn [w_data]. split; [apply good_step; exact G|]. split; [lia|]. split; [|discriminate].
+      intros k Hk. cbn [existsb] in Hk. apply orb_false_iff in Hk as [Hk1 Hk2].
+      apply beqb_neq in Hk1. subst out. rewrite do_op_other by exact Hk1. apply Hun. exact Hk2.
+  - (* List(0) by the leader *)
+    destruct V as [Ld V]. rewrite Ld in Jl. destruct Jl as [n [Pn Jd]].
+    cbn [m_step] in M. rewrite Pn in M. cbn [committed] in M. injection M as <- <-.
+    destruct Jd as [[Eb Hb]|[Hle [G [Hbn [Hun Hfr]]]]].
+    + cbn [o15_run]. destruct (o15_step os (AList c, OList n (list_at (w_data (m_w s)) n))) as [os'|] eqn:St.
+      * destruct (step_keeps _ _ _ _ ltac:(discriminate) St) as [K1 [K2 K3]].
+        apply (IH s os'); [|rewrite K1, Ld; exact V|exact C].
+        split; [exact W|]. rewrite K1, Ld. exists n. split; [exact Pn|]. left. rewrite K2, K3. auto.
+      * right. f_equal. apply code_of_bad; assumption.
+    + cbn [o15_run o15_step]. rewrite Ld, N.eqb_refl. cbn [andb].
+      destruct (os_fresh os) eqn:Fr.
+      * destruct (Hfr eq_refl) as [Ed En]. rewrite Ed, En, (list_at_latest _ _ Hle).
+        rewrite (list_eqb_refl kv_eqb kv_eqb_refl).
+        apply (IH s os); [|rewrite Ld; exact V|exact C].
+        split; [exact W|]. rewrite Ld. exists n. split; [exact Pn|]. right. rewrite Fr. auto.
+      * apply (IH s os); [|rewrite Ld; exact V|exact C].
+        split; [exact W|]. rewrite Ld. exists n. split; [exact Pn|]. right. rewrite Fr. auto.
+  - (* restart *)
+    cbn [m_step] in M. injection M as <- <-. cbn [o15_run o15_step].
+    apply (IH _ os); [|exact V|exact C].
+    assert (Dd : w_data (restart e (m_w s)) = w_data (m_w s)) by (destruct e; reflexivity).
+    split; [cbn [m_w]; rewrite Dd; exact W|]. cbn [m_w m_p]. rewrite Dd. exact Jl.
+Qed.
+
+Lemma c15_oracle_sound c : c15_valid c -> c15_check c = true ->
+  c15_oracle c = None \/ (c15_oracle c = Some 1 /\ c_engine c = EBadger).
+Proof.
+  intros V C. unfold c15_oracle.
+  destruct (o15_sound (c_engine c) (c_script c) mstate0 ost0) as [H|H]; [|exact V|exact C|left; exact H|right].
+  - split; [constructor|exact I].
+  - split; [exact H|]. destruct (o15_run_code _ _ _ _ H) as [E|[_ E]]; [discriminate|exact E].
+Qed.
